@@ -152,6 +152,32 @@ Example C12_example_list :
   /\ before_dd $"Thicknesses, 1, 1, " = $"Thicknesses, 1, 1, ".
 Proof. vm_compute. repeat split; reflexivity. Qed.
 
+(* a caching client in front of the reader: with the real cache key (the file PATH) every history of requests over any
+   set of files gets, request by request, what a fresh run of that request's file gives - whatever is observed of the
+   dictionary ([view]).  Files are not edited during the history ([fs] is a function: edits are property C08). *)
+Theorem C12_cache_key_separates : forall (Res : Type) (fs : string -> string) (view : dict -> Res) (history : list string),
+  serve string string Res key_path US.eqb (fun p => view (read_text (fs p))) [] history
+  = map (fun p => view (read_text (fs p))) history.
+Proof. exact cache_key_separates. Qed.
+Print Assumptions C12_cache_key_separates.
+
+(* an order-insensitive key (the set of stripped non-blank lines) does NOT separate files that read differently: the
+   40-then-60 and 60-then-40 files share it and the second request is answered with the first one's result *)
+Theorem C12_cache_key_lineset_refuted :
+  exists t1 t2 : string,
+    lineset_eqb (key_lineset t1) (key_lineset t2) = true
+    /\ option_map e_sval (dict_get $"Gradient 1" (read_text t1)) = Some $"60"
+    /\ option_map e_sval (dict_get $"Gradient 1" (read_text t2)) = Some $"40"
+    /\ serve string (list string) (option string) key_lineset lineset_eqb
+         (fun t => option_map e_sval (dict_get $"Gradient 1" (read_text t))) [] [t1; t2]
+       = [Some $"60"; Some $"60"].
+Proof. exact lineset_key_counterexample. Qed.
+Print Assumptions C12_cache_key_lineset_refuted.
+
+Example C12_example_cache :
+  cache_check [$"/t/a.txt"; $"/t/b.txt"; $"/t/a.txt"; $"/t/c.txt"] [0; 1; 0; 3] = true.
+Proof. vm_compute. reflexivity. Qed.
+
 (* the whitespace of the model is EXACTLY the 29 code points str.isspace() accepts (the list is compared with the
    running interpreter's table on every check) *)
 Theorem C12_whitespace_table : forall c : N, is_ws c = true <-> In c ws_points.
